@@ -13,9 +13,149 @@ def _labrea():
     import labrea
     from labrea import Option
     from labrea.pipeline import Identity, Pipeline, PipelineStep, pipeline_step
-    from labrea.types import Value
+    from labrea.application import PartialApplication
+    from labrea.types import Evaluatable, Value
     return dict(Option=Option, Identity=Identity, Pipeline=Pipeline, PipelineStep=PipelineStep,
-                pipeline_step=pipeline_step, Value=Value)
+                pipeline_step=pipeline_step, Value=Value, PartialApplication=PartialApplication, Evaluatable=Evaluatable)
+
+
+# ----------------------------------------------------------------------------- steps of every KIND of Python callable
+#
+# "Step parameters ... are evaluated from the same options at evaluation time and are reported by keys() and
+# explain()": for every kind of callable the step function may legitimately be (def, lambda, an instance with
+# __call__, a bound method, a classmethod / staticmethod, a class, a functools.partial object over any of these)
+# and every kind of parameter that may carry the option (positional-or-keyword, keyword-only after a bare *, next
+# to constant parameters on either side, behind a positional-only input `x, /`, keyword-only because a
+# functools.partial bound an earlier parameter by keyword, bound by a functools.partial itself, or supplied through
+# PartialApplication.lift(f, y=Option(...)) for a parameter without a default, with or without *args / **kwargs
+# catch-alls).  Positional-only PARAMETERS (`def f(x, y=Option('K'), /)`) and *args / **kwargs in a @pipeline_step
+# are not supported by labrea itself (TypeError / ValueError on the unchanged library) and stay outside.
+# In the Coq model every one of them is the same thing: SParam key default.
+
+PARAM_DESCS = ("param", "kparam", "sub")
+CALLABLE_KINDS = ("def", "lambda", "instance", "bound", "classmethod", "staticmethod", "class")
+CONST = 7
+# parameter kind -> (parameter list, call, how the final function is obtained from the callable `f`)
+PARAM_KINDS = {
+    "pk": ("x, y=OPT", "body(x, y)", None),
+    "kwonly": ("x, *, y=OPT", "body(x, y)", None),
+    "posx": ("x, /, y=OPT", "body(x, y)", None),
+    "posx_kwonly": ("x, /, *, y=OPT", "body(x, y)", None),
+    "const_then_kwonly": ("x, c=CONST, *, y=OPT", "body(x, y, c)", None),
+    "kwonly_then_const": ("x, *, y=OPT, c=CONST", "body(x, y, c)", None),
+    "pk_then_kwonly_const": ("x, y=OPT, *, c=CONST", "body(x, y, c)", None),
+    "partial_kw": ("x, c=0, y=OPT", "body(x, y, c)", "functools.partial(f, c=CONST)"),        # y becomes keyword-only
+    "partial_kw_after": ("x, y=OPT, c=0", "body(x, y, c)", "functools.partial(f, c=CONST)"),  # y stays positional-or-keyword
+    "partial_pos": ("c, x, y=OPT", "body(x, y, c)", "functools.partial(f, CONST)"),
+    "partial_binds_option": ("x, y", "body(x, y)", "functools.partial(f, y=OPT)"),
+    "partial_of_partial": ("c, x, d=0, y=OPT", "body(x, y, c if d == CONST else None)",
+                           "functools.partial(functools.partial(f, CONST), d=CONST)"),
+    # no default of its own: the option is supplied through PartialApplication.lift(f, y=...); the result is an
+    # Evaluatable of a callable, composed with `pipeline + evaluatable`
+    "lift_supplied_kwonly": ("x, *, y", "body(x, y)", "lift"),
+    "lift_supplied_pk": ("x, y", "body(x, y)", "lift"),
+    "lift_supplied_varargs": ("x, *rest, y", "body(x, y, CONST if rest == () else None)", "lift"),
+    "lift_supplied_varkw": ("x, *, y, **kw", "body(x, y, CONST if kw == {} else None)", "lift"),
+    "lift_own_default_varargs": ("x, *rest, y=OPT", "body(x, y, CONST if rest == () else None)", "lift_plain"),
+}
+RAW_PARAM_KINDS = tuple(k for k, v in PARAM_KINDS.items() if v[2] in ("lift", "lift_plain"))
+SOURCES = {
+    "def": "def f({p}):\n    return {c}\n",
+    "lambda": "f = lambda {p}: {c}\n",
+    "instance": "class C:\n    def __call__(self, {p}):\n        return {c}\nf = C()\n",
+    "bound": "class C:\n    def m(self, {p}):\n        return {c}\nf = C().m\n",
+    "classmethod": "class C:\n    @classmethod\n    def m(cls, {p}):\n        return {c}\nf = C.m\n",
+    "staticmethod": "class C:\n    @staticmethod\n    def m({p}):\n        return {c}\nf = C.m\n",
+    "class": "class f:\n    def __new__(cls, {p}):\n        return {c}\n",
+}
+
+
+def kind_step(L, a, key, default, ckind, pkind):
+    """(object, raw?) - a step tagged `a` with ONE option parameter Option(key[, default]), whose function is a Python
+    callable of kind `ckind` declaring the parameter in the way `pkind`; raw: an Evaluatable of a callable (to be
+    composed with `pipeline + evaluatable`), otherwise a @pipeline_step"""
+    import functools
+    opt = L["Option"](key) if default is None else L["Option"](key, default)
+
+    def body(x, y, c=CONST):
+        if c != CONST:
+            raise AssertionError("a constant / bound parameter of the step function did not arrive")
+        if y == BAD:
+            raise RuntimeError("bad parameter")
+        return [(a, y)] + x
+    params, call, wrap = PARAM_KINDS[pkind]
+    ns = dict(body=body, OPT=opt, CONST=CONST, functools=functools)
+    exec(SOURCES[ckind].format(p=params, c=call), ns)
+    f = ns["f"]
+    if wrap == "lift":
+        return L["PartialApplication"].lift(f, y=opt), True
+    if wrap == "lift_plain":
+        return L["PartialApplication"].lift(f), True
+    if wrap is not None:
+        f = eval(wrap, dict(ns, f=f))
+    return L["pipeline_step"](f), False
+
+
+# ----------------------------------------------------------------------------- steps that are user SUBCLASSES of PipelineStep
+#
+# labrea's documented extension point ("allows for third-party extensions to be created that can be used within
+# the labrea framework").  The step wraps a third-party Evaluatable that is careless in some aspects (its function
+# tags the value wrongly / it reports no keys / explains nothing / validates anything); the subclass overrides
+# exactly those methods of the Evaluatable protocol and does them right.  On its own the step is a step with one
+# option parameter (the model's SParam); composed into a pipeline (either side, any bracketing, e >> p) it must
+# still be: (p + q).transform(x, o) = q.transform(p.transform(x, o), o), keys / explain = the union over the steps.
+OVERRIDABLE = ("evaluate", "keys", "explain", "validate")
+
+
+def subclass_step(L, a, key, default, ov):
+    Option, PipelineStep, Evaluatable = L["Option"], L["PipelineStep"], L["Evaluatable"]
+    opt = Option(key) if default is None else Option(key, default)
+
+    def body(tag, y, x):
+        if y == BAD:
+            raise RuntimeError("bad parameter")
+        return [(tag, y)] + x
+
+    class Careless(Evaluatable):
+        def evaluate(self, options):
+            y = opt.evaluate(options)
+            tag = -a if "evaluate" in ov else a
+            return lambda x: body(tag, y, x)
+
+        def validate(self, options):
+            if "validate" not in ov:
+                opt.validate(options)
+
+        def keys(self, options):
+            return set() if "keys" in ov else opt.keys(options)
+
+        def explain(self, options=None):
+            return set() if "explain" in ov else opt.explain(options)
+
+        def __repr__(self):
+            return f"<Careless {a}>"
+
+    methods = {}
+    if ov == ("evaluate",):
+        # overrides ONE method, wrapping the function the inherited machinery evaluates
+        def evaluate(self, options):
+            f = self.step.evaluate(options)
+            return lambda x: (lambda r: [(a, r[0][1])] + r[1:])(f(x))
+        methods["evaluate"] = evaluate
+    elif "evaluate" in ov:
+        # reads its parameter from the options itself
+        def evaluate(self, options):
+            y = opt.evaluate(options)
+            return lambda x: body(a, y, x)
+        methods["evaluate"] = evaluate
+    if "validate" in ov:
+        methods["validate"] = lambda self, options: opt.validate(options)
+    if "keys" in ov:
+        methods["keys"] = lambda self, options: opt.keys(options)
+    if "explain" in ov:
+        methods["explain"] = lambda self, options=None: opt.explain(options)
+    Sub = type(f"UserStep{a}", (PipelineStep,), methods)
+    return Sub(Careless(), f"user{a}")
 
 
 class World:
@@ -24,9 +164,12 @@ class World:
     def __init__(self, L, descs):
         self.L = L
         self.descs = descs  # atom -> ('plain',) | ('param', keyatom, default|None) | ('raise',) | ('callable',)|('rcallable',)
+        #                   | ('kparam', keyatom, default|None, callable kind, parameter kind)   (see CALLABLE_KINDS / PARAM_KINDS)
+        #                   | ('sub', keyatom, default|None, (overridden method names))        (a user subclass of PipelineStep)
         self.objs = {}
         self.by_id = {}
         self.by_fn = {}
+        self.by_ev = {}
         for a, d in descs.items():
             self.objs[a] = self._mk(a, d)
 
@@ -70,6 +213,17 @@ class World:
                 raise KeyError("callable raises")
             self.by_fn[id(fn)] = a
             return fn
+        if kind == "kparam":
+            obj, raw = kind_step(L, a, f"K{d[1]}", d[2], d[3], d[4])
+            if raw:
+                self.by_ev[id(obj)] = a
+            else:
+                self.by_id[id(obj)] = a
+            return obj
+        if kind == "sub":
+            s = subclass_step(L, a, f"K{d[1]}", d[2], tuple(d[3]))
+            self.by_id[id(s)] = a
+            return s
         raise AssertionError(kind)
 
     def ident(self, step):
@@ -81,6 +235,8 @@ class World:
         inner = getattr(step, "step", None)
         if isinstance(inner, L["Value"]) and id(inner.value) in self.by_fn:
             return self.by_fn[id(inner.value)]
+        if id(inner) in self.by_ev:
+            return self.by_ev[id(inner)]
         return -1
 
     # --- building
@@ -104,7 +260,10 @@ class World:
         raise AssertionError(t)
 
     def is_raw(self, t):
-        return t[0] == "step" and self.descs[t[1]][0] in ("callable", "rcallable")
+        if t[0] != "step":
+            return False
+        d = self.descs[t[1]]
+        return d[0] in ("callable", "rcallable") or (d[0] == "kparam" and d[4] in RAW_PARAM_KINDS)
 
     def norm(self, t):
         if t[0] not in ("add", "iadd"):
@@ -126,7 +285,7 @@ class World:
     def coq_tbl(self):
         out = []
         for a, d in sorted(self.descs.items()):
-            if d[0] == "param":
+            if d[0] in PARAM_DESCS:     # whatever kind of Python callable / class the step is: a step with one option parameter
                 dflt = "None" if d[2] is None else f"(Some {d[2]}%N)"
                 out.append(f"({a}%N, SParam {100 + d[1]}%N {dflt})")
             elif d[0] in ("raise", "rcallable"):
@@ -265,6 +424,17 @@ def oracle(w, leaves, trees, built, opts_list, viol):
             if acc != tr:
                 viol.append(dict(desc="transform differs from folding the iterated steps",
                                  leaves=leaves, tree=t, options=o, got=tr, fold=acc))
+            # step parameters are reported by keys() and explain(): the pipeline reports what its steps (the objects it
+            # yields when iterated, asked themselves) report
+            for meth in ("keys", "explain"):
+                per = [attempt(lambda: getattr(s, meth)(po)) for s in p]
+                want = None if any(x is None for x in per) else set().union(*per)
+                got = attempt(lambda: getattr(p, meth)(po))
+                checks += 1
+                if got != want:
+                    viol.append(dict(desc=f"{meth}() of a pipeline is not the union of {meth}() of the steps it yields when iterated",
+                                     leaves=leaves, tree=t, options=o, got=None if got is None else sorted(got),
+                                     steps=None if want is None else sorted(want)))
             # the same options dictionary OBJECT, updated in place between two transform() calls on the same
             # pipeline object (a parameter sweep): parameters are read from the options at each call
             if len(opts_list) > 1:
@@ -304,7 +474,8 @@ def oracle(w, leaves, trees, built, opts_list, viol):
                                      a=base[0], b=cur))
             # (p + q).transform(x) == q.transform(p.transform(x))
             if t[0] == "add":
-                lp, rp = w.as_pipeline(w.build(t[1])), w.as_pipeline(w.build(t[2]))
+                # p and q as they are (a step is a Transformation itself); only a bare callable needs a pipeline around it
+                lp, rp = [x if hasattr(x, "transform") else w.as_pipeline(x) for x in (w.build(t[1]), w.build(t[2]))]
                 mid = attempt(lambda: lp.transform([], po))
                 two = None if mid is None else attempt(lambda: rp.transform(mid, po))
                 checks += 1
@@ -340,7 +511,7 @@ def oracle(w, leaves, trees, built, opts_list, viol):
             if tr is not None:
                 for s, pv in tr:
                     d = w.descs.get(s)
-                    if d and d[0] == "param":
+                    if d and d[0] in PARAM_DESCS:
                         want = o.get(d[1], d[2])
                         checks += 1
                         if pv != want:
@@ -835,21 +1006,51 @@ def helper_histories(rng, viol, rounds):
     return checks, {n: len(h) for n, h in hist.items()}
 
 
-def run(ctx):
-    L = _labrea()
+def gen_world_kinds(rng, L):
+    """sequences whose steps are of every callable kind x parameter kind, and user subclasses of PipelineStep
+    overriding every non-empty subset of the Evaluatable protocol; mixed with the older leaf kinds"""
+    n = rng.randint(1, 5)
+    descs, leaves = {}, []
+    subsets = [ov for k in range(1, 5) for ov in itertools.combinations(OVERRIDABLE, k)]
+    for i in range(1, n + 1):
+        r = rng.random()
+        key, dflt = rng.randint(1, 3), rng.choice([None, None, 5, 6])
+        if r < 0.45:
+            descs[i] = ("kparam", key, dflt, rng.choice(CALLABLE_KINDS), rng.choice(sorted(PARAM_KINDS)))
+            raw = descs[i][4] in RAW_PARAM_KINDS
+            leaves.append(("step", i) if raw else rng.choice([("step", i), ("step", i), ("single", i)]))
+        elif r < 0.80:
+            descs[i] = ("sub", key, dflt, rng.choice(subsets))
+            leaves.append(rng.choice([("step", i), ("step", i), ("single", i)]))
+        elif r < 0.86:
+            descs[i] = ("param", key, dflt)
+            leaves.append(("step", i))
+        elif r < 0.92:
+            descs[i] = rng.choice([("callable",), ("plain",), ("raise",)])
+            leaves.append(("step", i))
+        elif r < 0.97:
+            leaves.append(("empty",))
+        else:
+            leaves.append(("identity",))
+    return World(L, descs), leaves
+
+
+def world_stream(ctx, L, gen, n_worlds, max_brackets, cases, viol, dist, distinct):
+    """n_worlds step sequences from `gen` x all bracketings (sampled above the cap) x 3-4 option dictionaries: the
+    oracle on each, and one model case per (bracketing, dictionary); returns the number of oracle checks"""
     rng = ctx.rng
-    n_worlds = 60 if ctx.quick else 600
-    max_brackets = 14 if ctx.quick else 132
-    cases = []     # (coq expr, impl line, payload)
-    viol = []
     oracle_checks = 0
-    dist = {"leaves": {}, "lengths": {}, "outcomes": {"transform_ok": 0, "transform_fail": 0, "keys_fail": 0}}
-    distinct = set()
     for wi in range(n_worlds):
-        w, leaves = gen_world(rng, L)
+        w, leaves = gen(rng, L)
         for l in leaves:
             kind = l[0] if l[0] != "step" else w.descs[l[1]][0]
             dist["leaves"][kind] = dist["leaves"].get(kind, 0) + 1
+            if kind == "kparam":
+                for kk in w.descs[l[1]][3:5]:
+                    dist["step_kinds"][kk] = dist["step_kinds"].get(kk, 0) + 1
+            if kind == "sub":
+                kk = "+".join(w.descs[l[1]][3])
+                dist["subclass_overrides"][kk] = dist["subclass_overrides"].get(kk, 0) + 1
         dist["lengths"][len(leaves)] = dist["lengths"].get(len(leaves), 0) + 1
         trees = bracketings(leaves)
         if len(trees) > max_brackets:
@@ -867,7 +1068,7 @@ def run(ctx):
             for o in opts_list:
                 line, obs = observe_impl(w, p, o)
                 expr = f"observe {tbl} {w.coq_cexpr(t)} {coq_opts(o)}"
-                cases.append((expr, line, dict(leaves=leaves, descs={str(k): v for k, v in w.descs.items()}, tree=t, options=o)))
+                cases.append((expr, line, dict(leaves=leaves, descs=descs_payload(w), tree=t, options=o)))
                 if obs["transform"] is None:
                     dist["outcomes"]["transform_fail"] += 1
                 else:
@@ -876,6 +1077,20 @@ def run(ctx):
                     dist["outcomes"]["keys_fail"] += 1
                 if len(leaves) >= 2 and obs["transform"]:
                     distinct.add(lib.stable_hash([leaves, sorted(w.descs.items()), t, sorted(o.items())]))
+    return oracle_checks
+
+
+def run(ctx):
+    L = _labrea()
+    rng = ctx.rng
+    n_worlds = 60 if ctx.quick else 600
+    max_brackets = 14 if ctx.quick else 132
+    cases = []     # (coq expr, impl line, payload)
+    viol = []
+    dist = {"leaves": {}, "lengths": {}, "outcomes": {"transform_ok": 0, "transform_fail": 0, "keys_fail": 0},
+            "step_kinds": {}, "subclass_overrides": {}}
+    distinct = set()
+    oracle_checks = world_stream(ctx, L, gen_world, n_worlds, max_brackets, cases, viol, dist, distinct)
     # ---- drawn after the older stream (which stays what it was for a given seed): construction trees whose
     # nodes are + or +=, every object built along the way observed again AFTER all compositions
     alias_checks, alias_trees, alias_cases = 0, 0, 0
@@ -899,13 +1114,17 @@ def run(ctx):
                 cases.append((f"observe {tbl} {w.coq_cexpr(sub)} {coq_opts(o)}", line,
                               dict(leaves=leaves, descs=descs_payload(w), tree=sub, options=o, whole_tree=t, observed="after all compositions")))
                 alias_cases += 1
+    hviol = []
+    hist_checks, hist_lengths = helper_histories(rng, hviol, 90 if ctx.quick else 900)
+    # ---- drawn after every older stream: steps of every callable kind x parameter kind, user subclasses of PipelineStep
+    n_old_cases = len(cases)
+    oracle_checks += world_stream(ctx, L, gen_world_kinds, 70 if ctx.quick else 700, 5 if ctx.quick else 14, cases, viol, dist, distinct)
+    dist["kind_stream_model_cases"] = len(cases) - n_old_cases
     model_lines = ctx.coq_eval("Cases_C13", ["Model.Pipeline", "Model.PipelineRun"], "", [c[0] for c in cases])
     mism = []
     for (expr, line, payload), ml in zip(cases, model_lines):
         if ml != line:
             mism.append(dict(where="Model/Pipeline.v vs labrea.pipeline", scenario=payload, impl=line, model=ml))
-    hviol = []
-    hist_checks, hist_lengths = helper_histories(rng, hviol, 90 if ctx.quick else 900)
     hcases, hsamples = helper_enumeration(hviol)
     for v in hviol:
         v.setdefault("kind_detail", "helper")
@@ -917,7 +1136,10 @@ def run(ctx):
         "rule": "random sequences of 1-6 leaves (decorated steps with option parameters with/without default, plain and raising callables, "
                 "Pipeline(step), empty pipelines, the Identity step) x all bracketings (sampled above the cap) x 3-4 option dictionaries; "
                 "a case is non-trivial when it has >= 2 leaves and its transform succeeds with a non-empty step stack; distinct by hash of "
-                "(leaves, step table, bracketing, options). Helper table: every listed helper x {constant, option} argument form (finite, complete).",
+                "(leaves, step table, bracketing, options). Helper table: every listed helper x {constant, option} argument form (finite, complete). "
+                "Kind stream: sequences of 1-5 leaves whose steps are @pipeline_step / PartialApplication.lift over 7 kinds of Python callable x 17 ways "
+                "of declaring the option parameter, and user subclasses of PipelineStep overriding every non-empty subset of evaluate / keys / explain / "
+                "validate (all of them the model's SParam), mixed with the older leaf kinds, x up to 5 bracketings x 3-4 dictionaries.",
         "samples": samples,
         "traces_validated_against_impl": len(cases),
         "correspondence_mismatches": mism[:5],
